@@ -41,7 +41,7 @@ DESIGN_REF = "DESIGN.md section 3, C17"
 EXHAUSTIVE_NOTE = "enum-moves: all trees with <= 4 leaves over 4 leaf kinds, all parenthesisations, <= 2 multiplications with n in 1..3; enum-ops: same with <= 3 leaves over 6 kinds"
 
 MOVE_KINDS = ["D", "X", "C", "G"]
-OP_KINDS = ["Ball", "Box", "Translation", "Rotation", "Iso", "Probe"]
+OP_KINDS = ["Ball", "Box", "Translation", "Rotation", "Iso", "Probe", "TransRot"]
 
 
 # ------------------------------------------------------------------ pools
@@ -80,6 +80,7 @@ def op_pool():
     return {
         "Ball": [od.Ball(0.1) for _ in range(10)], "Box": [od.Box(0.1) for _ in range(10)], "Translation": [od.Translation() for _ in range(10)],
         "Rotation": [od.Rotation() for _ in range(10)], "Iso": [oc.IsotropicDeformation(0.1) for _ in range(10)], "Probe": [Probe() for _ in range(10)],
+        "TransRot": [od.TranslationRotation() for _ in range(10)],
     }
 
 
@@ -120,6 +121,9 @@ def tree_str(t, kinds):
     return f"{tree_str(t[1], kinds)}*{t[2]}"
 
 
+IADD = [False]  # the random part switches the augmented assignment form on
+
+
 def elements_of(obj):
     return list(getattr(obj, "moves", None) if hasattr(obj, "moves") else getattr(obj, "operations", []) or [])
 
@@ -133,7 +137,14 @@ def evaluate(t, kinds, pool, trace=None):
     if t[0] == "add":
         lo, lm = evaluate(t[1], kinds, pool, trace)
         ro, rm = evaluate(t[2], kinds, pool, trace)
-        res = lo + ro
+        if IADD[0] and t[1][0] != "leaf" and (len(lm) + len(rm)) % 2 == 0:
+            # `acc += b` on an intermediate composite of this very expression: same contract as `acc + b`
+            res = lo
+            res += ro
+            if trace is not None and res is lo:
+                trace[:] = [x for x in trace if x[0] is not lo]  # an in-place += may legitimately extend its own left operand
+        else:
+            res = lo + ro
         out = (res, lm + rm)
     else:
         o, m = evaluate(t[1], kinds, pool, trace)
@@ -248,6 +259,7 @@ def all_trees(max_leaves, max_mul=2):
 
 
 def run_enum(part, shard, nshards):
+    IADD[0] = False
     res = empty_result()
     moves = part == "enum-moves"
     pool = move_pool() if moves else op_pool()
@@ -321,7 +333,7 @@ def random_case(draw):
         grow = [draw(st.sampled_from([0, 0, 0, 1, -1])) for _ in range(cnt[0])]
         return {"mode": mode, "tree": t, "kinds": kinds, "results": results, "grow": grow}
     kinds = [draw(st.sampled_from(kinds_all)) for _ in range(cnt[0])]
-    return {"mode": mode, "tree": t, "kinds": kinds}
+    return {"mode": mode, "tree": t, "kinds": kinds, "iadd": draw(st.booleans())}  # iadd: some sums are written `acc += b`
 
 
 def to_tuple(t):
@@ -333,6 +345,7 @@ _POOLS = {}
 
 def run_random(case):
     mode = case["mode"]
+    IADD[0] = bool(case.get("iadd")) and mode in ("moves", "ops")
     if "moves" not in _POOLS:
         _POOLS["moves"], _POOLS["ops"] = move_pool(), op_pool()
     if mode == "badmul":
